@@ -18,7 +18,7 @@ import (
 )
 
 func init() {
-	pbt.Describe("syntax: 'token soup' texts built line by line from identifiers with arbitrary printable runes, double- and back-quoted strings with escapes, the seven bracket/comma tokens, '(' at end of line, empty blocks '( )', stray and nested parens, whole-line and end-of-line comments, blank lines, CRLF, missing final newline, unknown block types, plus hostile fragments and 0-2 byte mutations; for every text the syntax-only parser (hook VerifParseSyntax) accepts: parse -> Format -> parse must succeed with the same flattened statements/tokens/comment texts (LineBlock.Suffix folded into RParen.Suffix, comment text TrimSpace'd, blank-line placeholders dropped) and Format must be byte-idempotent. directives: well-formed go.mod and go.work texts from the modgen grammar (line and block forms, quoted and bare tokens, paths that need quoting, comments before/after/suffix, blank lines, CRLF, indirect markers with and without trailing text, retract intervals, replace forms) parsed strictly with fix in {nil, canonicaliser, symbolic->pseudo-version}: directive values before == after formatting. Non-trivial: accepted by the parser and containing at least one of: a block, a quoted token, a comment, CRLF. Distinct by JSON rendering.",
+	pbt.Describe("syntax: 'token soup' texts built line by line from identifiers with arbitrary printable runes, double- and back-quoted strings with escapes, the seven bracket/comma tokens, '(' at end of line, empty blocks '( )', stray and nested parens, whole-line and end-of-line comments, blank lines, CRLF, missing final newline, unknown block types, plus hostile fragments and 0-2 byte mutations; for every text the syntax-only parser (hook VerifParseSyntax) accepts: parse -> Format -> parse must succeed with the same flattened statements/tokens/comment texts (LineBlock.Suffix folded into RParen.Suffix, comment text TrimSpace'd, blank-line placeholders dropped) and Format must be byte-idempotent. directives: well-formed go.mod and go.work texts from the modgen grammar (line and block forms, quoted and bare tokens, paths that need quoting, comments before/after/suffix, blank lines, CRLF, indirect markers with and without trailing text, retract intervals, replace forms) parsed strictly with fix in {nil, canonicaliser, symbolic->pseudo-version}: directive values before == after formatting. Non-trivial: accepted by the parser and containing at least one of: a block, a quoted token, a comment, CRLF. Distinct by JSON rendering. (Shortened and +meta versions, which the strict parser canonicalises, are generated with and without a fixer.)",
 		"comment attachment is compared after folding LineBlock.Suffix into RParen.Suffix (a comment after a one-line empty block 'x ( ) // c' moves from the block to its ')' because the printed form spans two lines)",
 		"paths non-empty and not a lone bracket/comma, versions valid (the property's hedge)")
 }
@@ -237,7 +237,7 @@ type dirCase struct {
 
 func genDir(t *rapid.T) dirCase {
 	fix := []string{"nil", "nil", "canonical", "symbolic"}[rapid.IntRange(0, 3).Draw(t, "fix")]
-	o := modgen.Options{Work: rapid.IntRange(0, 3).Draw(t, "work") == 0, OddPaths: true, Loose: fix != "nil"}
+	o := modgen.Options{Work: rapid.IntRange(0, 3).Draw(t, "work") == 0, OddPaths: true, Loose: fix != "nil" || gen.Chance(t, 40, "loosenofixer")}
 	return dirCase{modgen.Gen(t, o), fix}
 }
 
